@@ -465,7 +465,12 @@ struct Prog {
       // (same position, other values, tied back by the merge vectors) while the
       // other end of the flanking edges stays shared - the end point of a UV /
       // colour seam path. Per-triangle face IDs keep every face decidable.
-      if (extra > 0 && r.chance(0.4)) {
+      // Opt-in (stage param partialSeams=1, not part of the registered check):
+      // on the unchanged tree such originals trigger unexplained property
+      // errors at thorough depth (see DESIGN.md 9.5), so the registered stages
+      // keep them off; the rng draw is only made when the option is on, so the
+      // default workload is the one the harness author validated.
+      if (extra > 0 && c.iparam("partialSeams", 0) != 0 && r.chance(0.4)) {
         int k = r.range(1, 6);
         for (int q = 0; q < k; q++) {
           size_t t = r.below(nt);
